@@ -23,7 +23,7 @@ func init() {
 		RaceIsViolation: true,
 		Cases:           func(tier string) int { return vlib.TierN(tier, 640, 40000) },
 		Rule: "case i runs class i%4: (0) middleware-concurrent, (1) publisher-decorator-concurrent: a multiset of 4..96 messages over 1..5 keys (payload sizes around the 64-byte read limit: equal prefixes with different tails, keys from SHA-256/Adler-32 with limits 1..MaxInt64 or a metadata field), " +
-			"presented by 1..32 goroutines released by a barrier with yield injection at the repository's hook point, retention window 1 h; exactly one message per key may reach the handler / inner publisher, all others must come back as (nil,nil) resp. acked and filtered; " +
+			"presented by 1..32 goroutines released by a barrier with yield injection at the repository's hook point, retention window 1 h (or the default repository, Repository left nil: one minute); exactly one message per key may reach the handler / inner publisher, all others must come back as (nil,nil) resp. acked and filtered; " +
 			"(2) window: windows 5..50 ms, IsDuplicate polled with conservative monotonic stamps: a key accepted at [a0,a1] must be reported duplicate by any call ending before a0+window, and must be accepted again before the harness's own ticker of period window/2 fired 12 times past a1+window (else inconclusive if the control ticker itself was late); " +
 			"(3) hashers (pure): pairs of payloads with a common prefix >= max(limit,64) must get equal keys from both built-in hashers, pairs differing inside it different SHA-256 keys. " +
 			"Non-trivial: at least one key had >=2 concurrent presentations (0,1) / at least one duplicate answer and one re-acceptance were observed (2) / >=20 pairs (3). Distinct = (class, shape, observed winner pattern).",
@@ -105,13 +105,23 @@ func conc(e *vlib.Env, decorator bool) vlib.Result {
 	res := vlib.Result{Class: class + "/" + hs.name, Spec: spec}
 	ctl := vlib.NewCtl(r.Uint64(), yieldP, 30)
 	defer ctl.Uninstall()
-	repo, err := middleware.NewMapExpiringKeyRepository(time.Hour)
-	if err != nil {
-		res.Verdict = vlib.HarnessError
-		res.Reason = err.Error()
-		return res
+	var repo middleware.ExpiringKeyRepository
+	defaultRepo := r.Chance(0.4)
+	if !defaultRepo {
+		var err error
+		repo, err = middleware.NewMapExpiringKeyRepository(time.Hour)
+		if err != nil {
+			res.Verdict = vlib.HarnessError
+			res.Reason = err.Error()
+			return res
+		}
+	} else {
+		// Repository left nil: the documented default (in-memory, one minute window)
+		spec += " repository=default"
+		res.Spec = spec
 	}
 	d := &middleware.Deduplicator{KeyFactory: hs.mk(), Repository: repo, Timeout: time.Minute}
+	var err error
 
 	// key prefixes: random bytes of the effective read length, distinct per key
 	n := eff(hs.limit)
